@@ -21,7 +21,7 @@ use std::time::Duration;
 pub static INFO: PropInfo = PropInfo {
     id: "C19",
     level: "exploration",
-    rule: "one evaluation = one datagram handed to NetcodeServer::process_packet from an address that has no connected session at that moment (unknown or half-open), in a server that is empty, partly filled or full. Generators: valid requests (exact 1078 bytes, padded up to 1400, arbitrary unused prefix nibble, repeated, replayed from other addresses), truncated / bit-flipped / single-field-corrupted requests, requests with expired, foreign-key, foreign-protocol or wrong-host tokens (host lists one port or one address bit away from the server's own, or its IPv4-mapped form with another port), valid responses (built from the challenge the server issued), responses with corrupted or foreign challenge blobs, under a wrong key, from addresses without a half-open session, replayed after use, other sealed packet kinds, short and random strings; virtual time advances so that tokens expire. The harness minted every token and opens every challenge, so validity comes from its own ledger: valid token = the 1077 bytes after the prefix equal the request of a ledger token minted for this server (key, protocol, host list) and floor(server time) < expiry; valid response = opens as a Response under the client-to-server key of a ledger token and carries a (sequence, blob) pair this server instance issued. Oracle on the returned ServerResult: at most the one datagram of the result, addressed to the source, strictly shorter than the input, and none at all unless the input carried a valid token or a valid response. Non-trivial = the datagram came from an address without a connected session; distinct = (server fill state, generator, datagram hash). One run in 40 is a HISTORY-PRESSURE run instead: more than 2048 distinct valid tokens are presented (the server's used-token table holds 2048 and replaces an oldest entry), the clock advances, token T is answered at X, 1-3 further fresh tokens follow, then T's request is replayed from Y != X and must get no answer (entries strictly older than T's exist at every later insertion, so T's binding must still be there). One run in 30 is a LATE-RESPONSE run: a token with 2-4 s to live is presented (in half of the runs after a 600 s token from the same address, whose half-open session it takes over), the clock passes its expiry in one or many steps, and the correctly sealed response to its genuine challenge must get no answer (a response is valid only while its token is); timely responses are the control. One run in 30 is a STALE-RESPONSE run: an address completes a handshake, the session ends within the life time of the token (NetcodeServer::disconnect, the Disconnect datagram of the client, or a time-out), and the recorded genuine response datagram arrives again from that address 1-3 times: no answer, no session, nothing sent to it at the following updates (a response is consumed by the session it establishes); a duplicate while the session is up and a fresh request afterwards are the controls.",
+    rule: "one evaluation = one datagram handed to NetcodeServer::process_packet from an address that has no connected session at that moment (unknown or half-open), in a server that is empty, partly filled or full. Generators: valid requests (exact 1078 bytes, padded up to 1400, arbitrary unused prefix nibble, repeated, replayed from other addresses), truncated / bit-flipped / single-field-corrupted requests, requests with expired, foreign-key, foreign-protocol or wrong-host tokens (host lists one port or one address bit away from the server's own, or its IPv4-mapped form with another port), valid responses (built from the challenge the server issued), responses with corrupted or foreign challenge blobs, under a wrong key, from addresses without a half-open session, replayed after use, other sealed packet kinds, short and random strings; virtual time advances so that tokens expire. The harness minted every token and opens every challenge, so validity comes from its own ledger: valid token = the 1077 bytes after the prefix equal the request of a ledger token minted for this server (key, protocol, host list) and floor(server time) < expiry; valid response = opens as a Response under the client-to-server key of a ledger token and carries a (sequence, blob) pair this server instance issued. Oracle on the returned ServerResult: at most the one datagram of the result, addressed to the source, strictly shorter than the input, and none at all unless the input carried a valid token or a valid response. Non-trivial = the datagram came from an address without a connected session; distinct = (server fill state, generator, datagram hash). One run in 40 is a HISTORY-PRESSURE run instead: more than 2048 distinct valid tokens are presented (the server's used-token table holds 2048 and replaces an oldest entry), the clock advances, token T is answered at X, 1-3 further fresh tokens follow, then T's request is replayed from Y != X and must get no answer (entries strictly older than T's exist at every later insertion, so T's binding must still be there); in half of these runs the pressure comes after T instead and from more than 2048 UNAUTHENTICATED requests (correct framing, protocol id and timestamp around random bytes, each of which must get no answer): datagrams that carry no token cannot push a used token out of the server's memory. One run in 30 is a LATE-RESPONSE run: a token with 2-4 s to live is presented (in half of the runs after a 600 s token from the same address, whose half-open session it takes over), the clock passes its expiry in one or many steps, and the correctly sealed response to its genuine challenge must get no answer (a response is valid only while its token is); timely responses are the control. One run in 30 is a STALE-RESPONSE run: an address completes a handshake, the session ends within the life time of the token (NetcodeServer::disconnect, the Disconnect datagram of the client, or a time-out), and the recorded genuine response datagram arrives again from that address 1-3 times: no answer, no session, nothing sent to it at the following updates (a response is consumed by the session it establishes); a duplicate while the session is up and a fresh request afterwards are the controls.",
     assumptions: &[
         "a ServerResult carries at most one datagram; further output could only come from update_client, which is polled after a sample of the inputs",
         "a panic (C07's business) ends the run without a C19 verdict for that datagram",
@@ -54,6 +54,7 @@ pub static INFO: PropInfo = PropInfo {
         ("from.unknown", 1000),
         ("from.pending", 1000),
         ("history_pressure_runs", 5),
+        ("history_pressure_runs_with_unauthenticated_flood", 2),
         ("late_response_after_expiry", 20),
         ("late_response_after_expiry_superseding_token", 5),
         ("stale_response_after_session_ended", 20),
@@ -662,7 +663,11 @@ fn note_challenge(led: &mut Ledger, reply: &[u8], protocol: u64, i: usize) -> bo
 fn history_pressure_run(ctx: &Ctx, out: &mut Outcome, run_seed: u64, r: &mut Rng) {
     let maxc = r.urange(1, 3);
     let mut srv = new_srv(r, maxc, 1, false);
-    let n_fill = 2048 + r.urange(0, 40);
+    // in half of the runs the pressure comes afterwards and from requests that carry no token at all (correct framing,
+    // protocol id and an unexpired timestamp around random bytes): whatever the server remembers about used tokens,
+    // unauthenticated datagrams must not be able to push it out
+    let garbage_flood = r.chance(1, 2);
+    let n_fill = if garbage_flood { r.urange(0, 40) } else { 2048 + r.urange(0, 40) };
     let mut hist: Vec<Value> = Vec::new();
     let fail = |out: &mut Outcome, sig: &str, detail: String, hist: &Vec<Value>| {
         out.violation(
@@ -705,6 +710,28 @@ fn history_pressure_run(ctx: &Ctx, out: &mut Outcome, run_seed: u64, r: &mut Rng
         out.count("history_pressure_void_T_not_answered");
         out.eval(mix(&[0x19F2, run_seed]), false);
         return;
+    }
+    if garbage_flood {
+        let n = 2048 + r.urange(1, 200);
+        let mut answered_garbage = 0u64;
+        for j in 0..n {
+            let mut data = Box::new([0u8; 1024]);
+            r.fill(&mut data[..]);
+            let mut xnonce = [0u8; 24];
+            r.fill(&mut xnonce);
+            let d = OPacket::Request { version_info: nsim::VERSION_INFO, protocol_id: srv.protocol_id, expire_timestamp: srv.now.as_secs() + 600, xnonce, data }
+                .encode(srv.protocol_id, None)
+                .expect("request encode");
+            let from = nsim::addr4(60 + (j / 250) as u8, (j % 250) as u8, 45_000);
+            if srv.process(from, &d).outgoing().is_some() {
+                answered_garbage += 1;
+            }
+        }
+        hist.push(json!({"unauthenticated_requests_after_T": n, "answered": answered_garbage}));
+        out.count("history_pressure_runs_with_unauthenticated_flood");
+        if answered_garbage > 0 {
+            return fail(out, "C19/reply-to-invalid/unauthenticated-request", format!("{} of {} requests with random bytes in place of a token were answered", answered_garbage, n), &hist);
+        }
     }
     let extra = r.urange(1, 3);
     for j in 0..extra {
